@@ -1,5 +1,5 @@
 """C19 - serialisation round-trips: JSON and netCDF (netCDF half against the vendored stand-in)."""
-import copy, itertools, json, math, os, shutil, warnings
+import copy, itertools, json, math, os, random, shutil, warnings
 from fractions import Fraction
 import numpy as np
 import core, gen
@@ -329,6 +329,12 @@ class C19(Prop):
                            "attrs_py": copy.deepcopy(p["attrs_py"]), "base": 70 + j})
                 if p.get("new_axes"):
                     st["use_axes"] = p["new_axes"]
+            if how in ("dimarray_a", "dimarray_a+", "dataset_a", "dataset_a+"):
+                # clobber= said explicitly next to an appending mode (drawn from a stream of its own): appending to an
+                # existing file keeps what is there whatever is said about overwriting
+                cl = random.Random("cl%d:%d:%s" % (i, j, how)).choice([None, None, True, False])
+                if cl is not None:
+                    st["clobber"] = cl
             present[st["key"]] = {"dims": st["dims"], "vkind": st["vkind"], "attrs_py": st["attrs_py"],
                                   "new_axes": st.get("new_axes") or st.get("use_axes")}
             steps.append(st)
@@ -478,15 +484,16 @@ class C19(Prop):
                     a = build_var(ddv, st["key"], st.get("base", 50))
                     a_before = obs(a)
                     how = st["how"]
+                    ckw = {"clobber": st["clobber"]} if st.get("clobber") is not None else {}
                     if how == "dimarray_a":
-                        a.write_nc(path, st["key"], mode="a")
+                        a.write_nc(path, st["key"], mode="a", **ckw)
                     elif how == "dimarray_a+":
-                        a.write_nc(path, st["key"], mode="a+")
+                        a.write_nc(path, st["key"], mode="a+", **ckw)
                     elif how in ("dataset_a", "dataset_a+"):
                         d2 = Dataset({st["key"]: a})
                         d2.attrs["appended_" + st["key"]] = "yes"          # dataset-level metadata of the appended dataset
                         ds_attrs["appended_" + st["key"]] = "yes"
-                        d2.write_nc(path, mode=how[8:])
+                        d2.write_nc(path, mode=how[8:], **ckw)
                     elif how == "handle_a":
                         h = netCDF4.Dataset(path, "a")
                         a.write_nc(h, st["key"])
@@ -657,6 +664,8 @@ class C19(Prop):
                 f["how:" + st["how"]] = 1
                 if st.get("what"):
                     f["append:" + st["what"]] = 1
+                    if st.get("clobber") is not None:
+                        f["append.clobber:%s" % st["clobber"]] = 1
             for v in c["ds"]["vars"].values():
                 f["vkind:" + v["vkind"]] = 1
             metas = [c["ds"]["attrs"]] + [v["attrs_py"] for v in c["ds"]["vars"].values()] + [a.get("attrs_py", {}) for a in c["ds"]["axes"].values()]
